@@ -71,8 +71,11 @@ class FakeCtx:
     def __init__(self, wire, ok):
         self.wire, self.ok = wire, ok
 
-    def load_cert_chain(self, *a, **k):
-        pass
+    def load_cert_chain(self, certfile=None, keyfile=None, password=None):
+        # as the real SSLContext: a certificate file is required (`None` is a TypeError there)
+        if certfile is None:
+            raise TypeError("certfile should be a valid filesystem path")
+        self.wire.cert = (certfile, keyfile)
 
     def wrap_socket(self, sock, server_hostname=None):
         if not self.ok:
